@@ -245,6 +245,15 @@ class ChannelChecker:
     def quiescence(self, sess, loop):
         self.pending_for_idle(loop.time, 'quiescence')
         self.ghosts('quiescence')
+        # nobody keeps listening to a channel that is closed (whatever became of the activity
+        # that closed it while it was doing so)
+        waiting = [sub['who'] for sub in self.subs.values() if sub['state'] == 'idle']
+        self.stats['quiescent_listeners_checked'] = self.stats.get(
+            'quiescent_listeners_checked', 0) + len(waiting)
+        if waiting and self.channel._closed:
+            self.violation('listener-not-closed',
+                           'at quiescence %s still wait for messages of a closed channel' % (
+                               waiting,))
 
 
 def earlier_simulation(channel):
